@@ -169,7 +169,8 @@ def expected_semantics(enc: dict, info: Dict[str, Any]):
 def shell_opts(rng: random.Random, want_multiclient: bool = False, small: bool = False,
                mc_decoys: str = 'random', mc_shape: Optional[int] = None,
                name_families: Optional[float] = None,
-               ref_externs: Optional[float] = None, mc_enum_family: bool = False) -> GenOpts:
+               ref_externs: Optional[float] = None, mc_enum_family: bool = False,
+               mc_no_outs: bool = False) -> GenOpts:
     """Generator options for models that are meant to be wrapped in a shell."""
     return GenOpts(
         max_ns_depth=rng.choice([0, 1, 2, 3]), max_ns_children=rng.choice([1, 2]),
@@ -182,7 +183,8 @@ def shell_opts(rng: random.Random, want_multiclient: bool = False, small: bool =
         n_injected=(0, 1), n_foreigns=(0, 1), n_subints=(0, 1), noise=0.0,
         want_multiclient=want_multiclient, global_component=0.2, mc_decoys=mc_decoys,
         mc_shape=mc_shape, name_families=0.15 if name_families is None else name_families,
-        ref_externs=0.25 if ref_externs is None else ref_externs, mc_enum_family=mc_enum_family)
+        ref_externs=0.25 if ref_externs is None else ref_externs, mc_enum_family=mc_enum_family,
+        mc_no_outs=mc_no_outs)
 
 
 def gen_shell_case(rng: random.Random, want_multiclient: Optional[bool] = None,
@@ -190,12 +192,12 @@ def gen_shell_case(rng: random.Random, want_multiclient: Optional[bool] = None,
                    mc_position: Optional[str] = None, mc_shape: Optional[int] = None,
                    name_families: Optional[float] = None, accept=None,
                    ref_externs: Optional[float] = None, twins: bool = False,
-                   mc_enum_family: bool = False):
+                   mc_enum_family: bool = False, mc_no_outs: bool = False):
     """(gen, entry, cfg encoding, info): one model, one encapsulee, one valid configuration."""
     wmc = rng.random() < 0.4 if want_multiclient is None else want_multiclient
     for _attempt in range(400):
         gen = ModelGen(rng, shell_opts(rng, wmc, small, mc_decoys, mc_shape, name_families,
-                                       ref_externs, mc_enum_family))
+                                       ref_externs, mc_enum_family, mc_no_outs))
         gen.build_skeleton()
         o = gen.o
         for _ in range(gen._rint(o.n_externs)):
